@@ -26,8 +26,10 @@ Record lay := mkLay {
   l_pc : bool;                (* per-channel weight search *)
   l_tw : list Q;              (* per-layer search: sampled weight coefficients *)
   l_th : list (list Q);       (* per-channel search: (precisions x channels) matrix *)
-  l_zero : option nat }.      (* index of the 0-bit row *)
-Definition no_lay : lay := mkLay [] [] [] [] false [] [] None.
+  l_zero : option nat;        (* index of the 0-bit row *)
+  l_reuse : bool }.           (* this node is a further invocation of a module that already occurred (same coefficients,
+                                 geometry of this call site): counted by per-invocation specs only *)
+Definition no_lay : lay := mkLay [] [] [] [] false [] [] None false.
 
 Definition tw_of (l : lay) (C : Q) : list Q := if l_pc l then row_means (l_th l) C else l_tw l.
 Definition own_out_l (l : lay) (C : Q) : Q := if l_pc l then eff_out (l_th l) (l_zero l) C else C.
@@ -111,8 +113,12 @@ Section Net.
     end.
   Definition mps_net_cost (cf : ltype -> spec -> Q) (intended : bool) : Q :=
     qsum (map (node_cost cf intended) (seq 0 (length net))).
+  (* MPS._get_single_cost: a spec with shared=True (params_bit) counts every module once (first call site), a
+     per-invocation spec (ops_bit, latency models) once per call site with that call site's output shape *)
+  Definition mps_net_cost_sh (shared : bool) (cf : ltype -> spec -> Q) (intended : bool) : Q :=
+    qsum (map (fun i => if shared && l_reuse (lay_at i) then 0 else node_cost cf intended i) (seq 0 (length net))).
 End Net.
 
 (* harness entry point: totals for params_bit, ops_bit and the two probing specs *)
 Definition run_net (intended : bool) (net : list node) (lays : list lay) : list (Z * Z) :=
-  map (fun id => qpair (mps_net_cost net lays (cf_of id) intended)) [0; 1; 2; 3]%nat.
+  map (fun id => qpair (mps_net_cost_sh net lays (Nat.eqb id 0) (cf_of id) intended)) [0; 1; 2; 3]%nat.     (* params_bit is the shared one *)
